@@ -110,7 +110,7 @@ def get_property_mod_flags_query(
     ]
     columns += [
         (sa.or_(
-            getattr(v1.c, column) != getattr(v2.c, column),
+            getattr(v1.c, column).is_distinct_from(getattr(v2.c, column)),
             getattr(v2.c, tx_column_name).is_(None)
         )).label(column + mod_suffix)
         for column in tracked_columns
